@@ -16,8 +16,6 @@
     Deliberate re-orderings of unobservable atomic steps (no backend call in
     between, same final state whenever no count reaches zero in between, which
     the LookupFID reference of the handler guarantees):
-      - renameChildTo's callback does [parent := target; target.IncRef()]
-        before [oldparent.DecRef()] (Go: DecRef first);
       - a fresh fidRef is created with refs = 1 and listed in [s_held] (the
         reference doWalk returns / the one InsertFID is about to take) instead
         of refs = 0 followed by IncRef; the IncRef of its parent / xattr origin
@@ -365,15 +363,16 @@ Fixpoint notify_name_change (fuel n : nat) (s : sstate) : sstate :=
       fold_left (fun st c => notify_name_change f (snd c) st) (pn_nodes pn) s1
   end.
 
-(** the callback of renameChildTo (see header for the order of the first two steps) *)
+(** the callback of renameChildTo: re-parent, re-register and notify first, drop the reference on the
+    original parent last *)
 Definition rename_cb (tgt newnm : nat) (r : nat) (s : sstate) : sstate :=
   match fr_parent (get_ref s r) with
   | None => set_panic s
   | Some p =>
       let s1 := incref tgt (set_ref r (fr_with_parent (get_ref s r) (Some tgt)) s) in
-      let s2 := snd (decref_ p s1) in
-      let s3 := add_child (fr_node (get_ref s2 tgt)) r newnm s2 in
-      snd (bcall_ (BRenamed (fr_file (get_ref s3 r)) (fr_file (get_ref s3 tgt)) newnm) s3)
+      let s2 := add_child (fr_node (get_ref s1 tgt)) r newnm s1 in
+      let s3 := snd (bcall_ (BRenamed (fr_file (get_ref s2 r)) (fr_file (get_ref s2 tgt)) newnm) s2) in
+      snd (decref_ p s3)
   end.
 
 Definition rename_child_to (fnode oldnm tgt newnm : nat) (s : sstate) : sstate :=
